@@ -348,6 +348,29 @@ impl ConfigLockfile {
     }
 }
 
+// Returns true if `prefix` is `path` itself or a directory containing it, comparing
+// whole path components: "app" contains "app/src/main.rs" but not "app2/src/main.rs".
+pub(crate) fn is_path_prefix(prefix: &str, path: &str) -> bool {
+    path.starts_with(prefix)
+        && (path.len() == prefix.len()
+            || prefix.ends_with('/')
+            || path.as_bytes()[prefix.len()] == b'/')
+}
+
+// Returns the entries of `trie` that are `path` or contain it. The trie compares
+// bytes, so on its own it would also return entries that merely share a string
+// prefix with `path` ("app" for "app2/src/main.rs"); those are dropped here.
+pub(crate) fn path_prefix_search(trie: &Trie<u8>, path: &str) -> Vec<String> {
+    let mut out: Vec<String> = Vec::new();
+    for m in trie.common_prefix_search(path) {
+        let m: String = m;
+        if is_path_prefix(&m, path) {
+            out.push(m);
+        }
+    }
+    out
+}
+
 #[derive(Debug)]
 pub(crate) struct Index<'a> {
     pub(crate) targets: Vec<String>,
@@ -403,28 +426,25 @@ impl<'a> Index<'a> {
         cfg.targets.iter().enumerate().try_for_each(|(i, target)| {
             let target_path_str = target.path.as_str();
             // if this target is under an existing target, add it as a dep
-            let mut nodes = targets_trie
-                .common_prefix_search(target_path_str)
-                .filter(|t: &String| t != &target.path)
-                .map(|t| dag.get_node_by_label(&t).map_err(MonorailError::from))
-                .collect::<Result<Vec<usize>, MonorailError>>()?;
+            let mut nodes = vec![];
+            for t in path_prefix_search(&targets_trie, target_path_str) {
+                if t != target.path {
+                    nodes.push(dag.get_node_by_label(&t)?);
+                }
+            }
 
             if let Some(uses) = &target.uses {
                 for s in uses {
                     let uses_path_str = s.as_str();
                     uses_builder.push(uses_path_str);
-                    let matching_targets: Vec<String> =
-                        targets_trie.common_prefix_search(uses_path_str).collect();
                     use2targets.entry(s).or_default().push(target_path_str);
                     // a dependency has been established between this target and some
                     // number of targets, so we update the graph
-                    nodes.extend(
-                        matching_targets
-                            .iter()
-                            .filter(|&t| t != &target.path)
-                            .map(|t| dag.get_node_by_label(t).map_err(MonorailError::from))
-                            .collect::<Result<Vec<usize>, MonorailError>>()?,
-                    );
+                    for t in path_prefix_search(&targets_trie, uses_path_str) {
+                        if t != target.path {
+                            nodes.push(dag.get_node_by_label(&t)?);
+                        }
+                    }
                 }
             }
             nodes.sort();
